@@ -84,6 +84,7 @@ def run(ctx):
     ctx.assumptions = ["adapters vp/ops_ecss.py project objects by attribute reads only",
                        "TLC evaluates Pus.tla (ECSS-E-ST-70-41C 7.4.3 layout, CRC-16 table computed in TLA+)",
                        "beyond the grids parameters are sampled (no proof for all inputs)"]
+    ctx.symbolic_laws(['Law_PusSec'])
     ctx.replay_vectors("MC_Codec", "MC_Codec.cfg", perform, "grid", classify, consts='CONSTANT Area = "tm"',
                        need_actions=("PickVector",))
     ctx.validate_events(events(ctx), "calls", classify, shard=2000)
